@@ -162,10 +162,11 @@ pub fn suite_paths(g: &G, grid: u8) -> Value {
         }
         // all_pairs and multi_source(all nodes)
         let mut variants = vec![(0, -1i64, false, true), (0, -1, true, true), (0, -1, false, false)];
+        // with a target the search stops early: every target on small graphs, a few on larger ones
+        for &t in names.iter().take(if names.len() <= 6 { 6 } else { 2 }) {
+            variants.push((t, -1, false, true));
+        }
         if grid >= 1 {
-            for &t in names.iter().take(2) {
-                variants.push((t, -1, false, true));
-            }
             variants.push((0, 2, false, true));
             variants.push((0, 3, true, false));
         }
